@@ -460,3 +460,10 @@ def Keq(A, Bs):
     """pointwise equal sets have equal cardinal"""
     y = fresh('x', Ref)
     return z3.Implies(FA([y], z3.Select(A, y) == z3.Select(Bs, y)), card(A) == card(Bs))
+
+
+class Lemma:
+    """an intermediate assertion: proved as its own obligation, then available as a hypothesis"""
+    def __init__(self, name, formula):
+        self.name = name
+        self.formula = formula
